@@ -601,6 +601,7 @@ class Evaluator:
         inner = sc.child()
         seed = self.select_core(cores[0], inner, None, None)
         cols = colnames or seed.cols
+        seed = self.merge_exclusive(Bag(cols, seed.rows))
         level = Bag(cols, seed.rows)
         total = Bag(cols, list(seed.rows))
         if not union_all:
@@ -611,7 +612,7 @@ class Evaluator:
             isc = sc.child()
             isc.ctes[name] = level
             nxt = self.select_core(cores[1], isc, None, None)
-            nxt = Bag(cols, nxt.rows)
+            nxt = self.merge_exclusive(Bag(cols, nxt.rows))
             if not union_all:
                 # keep only rows not already in total (set semantics)
                 nxt = self.distinct(nxt)
@@ -633,6 +634,49 @@ class Evaluator:
             total.rows += nxt.rows
             level = nxt
         return total
+
+    def merge_exclusive(self, bag: Bag) -> Bag:
+        """Merge rows that can never be present together (decided by the solver) and agree on their
+        concrete columns into one row `(g1 or g2, ite(g1, vals1, vals2))`.  Exact for bags, and it
+        keeps the unrolling of recursive CTEs linear in the number of nodes instead of exponential
+        in the depth (a node has one creator, so at most one chain of a given length reaches it)."""
+        groups = {}
+        order = []
+        for g, vals in bag.rows:
+            key = tuple((i, v.v) for i, v in enumerate(vals) if v.concrete and not isinstance(v.v, tuple))
+            try:
+                hash(key)
+            except TypeError:
+                key = id(vals)
+            if key not in groups:
+                groups[key] = []
+                order.append(key)
+            groups[key].append((g, vals))
+        out = []
+        for key in order:
+            rows = groups[key]
+            if len(rows) == 1:
+                out.append(rows[0])
+                continue
+            if all(isinstance(g, bool) for g, _ in rows):
+                out.extend(rows)  # concrete run: nothing to gain
+                continue
+            guards = [bz(g) for g, _ in rows]
+            s = z3.Solver()
+            s.set("timeout", 20000)
+            for c in getattr(self.ctx, "base_constraints", []):
+                s.add(c)
+            s.add(z3.PbGe([(g, 1) for g in guards], 2))
+            if s.check() != z3.unsat:
+                out.extend(rows)
+                continue
+            g_all = bOr(*[g for g, _ in rows])
+            merged = list(rows[-1][1])
+            for g, vals in reversed(rows[:-1]):
+                merged = [v_ite(self.ctx, g, a, b) for a, b in zip(vals, merged)]
+            out.append((g_all, merged))
+            self.ctx.stats["rows_merged"] = self.ctx.stats.get("rows_merged", 0) + len(rows) - 1
+        return Bag(bag.cols, out)
 
     def _row_eq(self, a, b):
         return bAnd(*[v_eq_payload(self.ctx, x, y) for x, y in zip(a, b)])
@@ -852,14 +896,44 @@ class Evaluator:
                 mg = bAnd(g2, self._row_eq(keys[i], keys[j])) if j != i else g2
                 if mg is not False:
                     members.append((mg, rsc2))
-            gsc = rsc.with_binding("_grp", {})
-            gsc.agg = members
+            gsc = self._group_scope(rcols, rsc, members)
             vals = self._result_vals(rcols, gsc)
             if hv is not None:
                 leader = bAnd(leader, truth(self.expr(hv.children[0], gsc)))
             if leader is not False:
                 out.append((leader, vals))
         return Bag(names, out)
+
+    def _group_scope(self, rcols, rsc, members):
+        """Scope for evaluating the result columns of one group.
+
+        SQLite rule for bare columns: when the query has exactly one min()/max() aggregate, bare
+        columns take their values from the row that holds that minimum/maximum; otherwise from an
+        arbitrary row of the group (the first present member is used, which is exact whenever the
+        bare columns are functionally dependent on the group key, as in the live statements)."""
+        single = _single_minmax(rcols)
+        if single is None or len(members) <= 1:
+            gsc = rsc.with_binding("_grp", {})
+            gsc.agg = members
+            return gsc
+        fname, arg = single
+        keys = []
+        for g, msc in members:
+            keys.append(to_int(self.expr(arg, msc)))
+        chosen = []
+        for k, (g, msc) in enumerate(members):
+            better_or_equal = []
+            for k2, (g2, _) in enumerate(members):
+                if k2 == k:
+                    continue
+                op = ">" if fname == "max" else "<"
+                strictly = v_cmp(self.ctx, op, keys[k2], keys[k]).v
+                tie_earlier = bAnd(v_cmp(self.ctx, "=", keys[k2], keys[k]).v, k2 < k)
+                better_or_equal.append(bAnd(g2, bNot(keys[k2].n), bOr(strictly, tie_earlier)))
+            chosen.append(bAnd(g, bNot(keys[k].n), bNot(bOr(*better_or_equal))))
+        merged = self._bare_scope([(c, msc) for c, (_, msc) in zip(chosen, members)], rsc)
+        merged.agg = members
+        return merged
 
     def _bare_scope(self, rows, sc):
         """Scope whose columns take the value of the first present row (for bare columns in aggregates)."""
@@ -946,6 +1020,34 @@ def _substr(s, a, b):
     if b < 0:
         raise Unsupported("substr with negative length")
     return s[a - 1 : a - 1 + b]
+
+
+def _single_minmax(rcols):
+    """(name, arg tree) when the result columns contain exactly one aggregate and it is min/max."""
+    found = []
+
+    def rec(t):
+        if not isinstance(t, lark.Tree):
+            return
+        if t.data in ("e_exists", "e_subquery", "in_select", "select_stmt"):
+            return
+        if t.data == "e_func_star":
+            found.append(("count", None))
+            return
+        if t.data == "e_func":
+            name = str(t.children[0]).lower()
+            args = [k for k in t.children[1:] if isinstance(k, lark.Tree)]
+            if name in AGGREGATES and len(args) == 1:
+                found.append((name, args[0]))
+                return
+        for k in t.children:
+            rec(k)
+
+    for rc in rcols:
+        rec(rc)
+    if len(found) == 1 and found[0][0] in ("min", "max"):
+        return found[0]
+    return None
 
 
 def _has_aggregate(tree):
